@@ -37,7 +37,7 @@ m = {
         "add_only": True,
     },
     "engines": [{"name": "simtbb", "path": "/verif/sim + /verif/harness", "serves_properties": [c["property_id"] for c in checks],
-                 "kind_free_text": "deterministic simulation with fault injection: the real oneTBB sources run as cooperative fibers on one OS thread under a seeded scheduler (random walk / burst / PCT / stall), simulated clock, futex, threads, TLS, mmap; x86-TSO store buffers on registered regions; fork-per-run from a pristine zygote with ASLR off; ddmin minimisation of program tape and schedule; replay files"}],
+                 "kind_free_text": "deterministic simulation with fault injection: the real oneTBB sources run as cooperative fibers on one OS thread under a seeded scheduler (random walk / burst / PCT / stall / lost-wake-up hunter), simulated clock, futex, threads, TLS, mmap; x86-TSO store buffers on registered regions; fork-per-run from a pristine zygote with ASLR off; ddmin minimisation of program tape and schedule; replay files"}],
     "checks": checks,
     "not_applicable": na,
     "notes": "All checks share one binary per flavour (build/asan/simtbb, build/fast/simtbb) rebuilt from /repo's working tree by every command. VERIF_SEED selects the first seed of the stripe; VERIF_BUDGET_S overrides the search budget.",
